@@ -6,6 +6,7 @@ import (
 	"go/token"
 	"go/types"
 	"math/big"
+	"os"
 	"strings"
 
 	"golang.org/x/tools/go/ssa"
@@ -91,8 +92,15 @@ func (f *FnVC) run() {
 	// covers
 	f.cur = nil
 	f.cover("entry reachable under requires", "true")
+	if os.Getenv("GOVC_COVER_ALL") != "" {
+		for _, b := range f.fn.Blocks {
+			if r, ok := f.reach[b.Index]; ok {
+				f.cover(fmt.Sprintf("block %d reachable", b.Index), r)
+			}
+		}
+	}
 	for i, r := range f.rets {
-		f.cover(fmt.Sprintf("return %d reachable (%s)", i+1, f.posStr(r.pos)), r.reach)
+		f.cover(fmt.Sprintf("return %d reachable (%s, block %d)", i+1, f.posStr(r.pos), r.block), r.reach)
 	}
 	for _, li := range f.sortedLoops() {
 		// body reachable: some back edge
@@ -342,7 +350,7 @@ func (f *FnVC) finishLoops() {
 				f.fact(sEq(h.term, h.entry.get(h.heap)))
 				continue
 			}
-			if all || wholeOK[h.heap] || f.c == nil {
+			if all || wholeOK[h.heap] || f.c == nil || f.c.AssignsAll {
 				continue
 			}
 			// implicit frame invariant: outside the assigns set the heap still has its entry contents
@@ -886,6 +894,7 @@ func (f *FnVC) lookup(x *ssa.Lookup) {
 			_ = a
 		}
 		present := sAnd("(not (= "+m+" 0))", sSel(sSel(f.st.get(md), m), k))
+		f.fact(sImp(sSel(sSel(f.st.get(md), m), k), "(>= "+f.mapcard(sSel(f.st.get(md), m), md)+" 1)"))
 		v := sIte(present, sSel(sSel(f.st.get(mv), m), k), f.sorts.zeroOf(xt.Elem()))
 		if x.CommaOk {
 			vt := f.tv(f.freshConst("mapv", f.sorts.sortOf(xt.Elem())), xt.Elem())
@@ -1238,7 +1247,13 @@ func (f *FnVC) ret(x *ssa.Return) {
 	for _, r := range x.Results {
 		res = append(res, f.val(r))
 	}
-	f.rets = append(f.rets, retPoint{st: f.st, reach: f.curReach(), res: res, pos: x.Pos()})
+	if f.c != nil && len(f.c.Sets) > 0 {
+		envS := f.exitEnv(res, f.st)
+		for _, sc := range f.c.Sets {
+			f.applySet(envS, f.root, sc)
+		}
+	}
+	f.rets = append(f.rets, retPoint{st: f.st, reach: f.curReach(), res: res, pos: x.Pos(), block: f.cur.Index})
 	if f.c == nil {
 		return
 	}
